@@ -302,24 +302,66 @@ func generators(r *vlib.Run) {
 		rs := toolbox3d.NewRectSet()
 		var hist []string
 		ops := 1 + rng.Intn(7)
+		randRect := func() (lo, hi [3]int, rect *model3d.Rect) {
+			lo = [3]int{rng.Intn(n), rng.Intn(n), rng.Intn(n)}
+			hi = [3]int{lo[0] + 1 + rng.Intn(n-lo[0]), lo[1] + 1 + rng.Intn(n-lo[1]), lo[2] + 1 + rng.Intn(n-lo[2])}
+			rect = model3d.NewRect(model3d.XYZ(float64(lo[0]), float64(lo[1]), float64(lo[2])), model3d.XYZ(float64(hi[0]), float64(hi[1]), float64(hi[2])))
+			return
+		}
+		fill := func(dst *[n][n][n]bool, lo, hi [3]int, v bool) {
+			for x := lo[0]; x < hi[0]; x++ {
+				for y := lo[1]; y < hi[1]; y++ {
+					for z := lo[2]; z < hi[2]; z++ {
+						dst[x][y][z] = v
+					}
+				}
+			}
+		}
 		for o := 0; o < ops; o++ {
-			lo := [3]int{rng.Intn(n), rng.Intn(n), rng.Intn(n)}
-			hi := [3]int{lo[0] + 1 + rng.Intn(n-lo[0]), lo[1] + 1 + rng.Intn(n-lo[1]), lo[2] + 1 + rng.Intn(n-lo[2])}
 			add := o == 0 || rng.Intn(4) != 0
-			rect := model3d.NewRect(model3d.XYZ(float64(lo[0]), float64(lo[1]), float64(lo[2])), model3d.XYZ(float64(hi[0]), float64(hi[1]), float64(hi[2])))
+			if rng.Intn(3) == 0 {
+				// merge or subtract a whole set that was built separately (its own split planes)
+				other := toolbox3d.NewRectSet()
+				var oc [n][n][n]bool
+				k := 1 + rng.Intn(3)
+				for i := 0; i < k; i++ {
+					lo, hi, rect := randRect()
+					oadd := i == 0 || rng.Intn(4) != 0
+					if oadd {
+						other.Add(rect)
+					} else {
+						other.Remove(rect)
+					}
+					fill(&oc, lo, hi, oadd)
+					hist = append(hist, fmt.Sprintf("  other: add=%v %v-%v", oadd, lo, hi))
+				}
+				if add {
+					rs.AddRectSet(other)
+					c.Count("gen.RectSet.AddRectSet", 1)
+				} else {
+					rs.RemoveRectSet(other)
+					c.Count("gen.RectSet.RemoveRectSet", 1)
+				}
+				hist = append(hist, fmt.Sprintf("merge other: add=%v", add))
+				for x := 0; x < n; x++ {
+					for y := 0; y < n; y++ {
+						for z := 0; z < n; z++ {
+							if oc[x][y][z] {
+								cells[x][y][z] = add
+							}
+						}
+					}
+				}
+				continue
+			}
+			lo, hi, rect := randRect()
 			if add {
 				rs.Add(rect)
 			} else {
 				rs.Remove(rect)
 			}
 			hist = append(hist, fmt.Sprintf("add=%v %v-%v", add, lo, hi))
-			for x := lo[0]; x < hi[0]; x++ {
-				for y := lo[1]; y < hi[1]; y++ {
-					for z := lo[2]; z < hi[2]; z++ {
-						cells[x][y][z] = add
-					}
-				}
-			}
+			fill(&cells, lo, hi, add)
 		}
 		any := false
 		for x := 0; x < n; x++ {
